@@ -368,9 +368,16 @@ func replay(path string, quiet bool) int {
 		}
 		fmt.Printf("REPLAY property=%s class=%s key=%s log_hash=%s (recorded %s)\n  %s\n", rf.Property, v.Class, v.Key, lh, rf.LogHash, v.Detail)
 	}
-	if v.Class != rf.Class || lh != rf.LogHash {
+	if v.Class != rf.Class {
 		fmt.Printf("REPLAY-DIVERGED property=%s recorded class=%s hash=%s; now class=%s hash=%s\n", rf.Property, rf.Class, rf.LogHash, v.Class, lh)
 		return 2
+	}
+	if lh != rf.LogHash {
+		// Same violation class, different event log: the simulator is deterministic
+		// (./selftest.sh), so the LIBRARY under test behaves differently from one
+		// process to the next (e.g. a sync.Pool or map-order dependence was
+		// introduced). The violation stands; the divergence is reported with it.
+		fmt.Printf("NOTE property=%s: violation class %s reproduces, but the event log differs from the recorded one (%s vs %s): the code under test is itself nondeterministic\n", rf.Property, v.Class, lh, rf.LogHash)
 	}
 	fmt.Printf("VIOLATION property=%s replay=%s\n", rf.Property, path)
 	return 1
